@@ -284,8 +284,20 @@ class Universe:
                     elif isinstance(n, ast.Name) and isinstance(
                             n.ctx, ast.Load):
                         par = getattr(n, '_parent', None)
-                        if not (isinstance(par, ast.Call) and
-                                par.func is n):
+                        if isinstance(par, ast.Call) and par.args and \
+                                par.args[0] is n and model.norm(
+                                    par.func) in ('functools.partial',
+                                                  'partial'):
+                            # partial(f, a, b): a call site that binds the
+                            # leading parameters
+                            pc = ast.Call(func=n, args=par.args[1:],
+                                          keywords=par.keywords)
+                            pc._parent = getattr(par, '_parent', None)
+                            ast.copy_location(pc, par)
+                            idx.setdefault((f.module.name, n.id),
+                                           []).append((f, pc))
+                        elif not (isinstance(par, ast.Call) and
+                                  par.func is n):
                             loaded[(f.module.name, n.id)] = True
             self._call_idx = idx
             self._loaded_idx = loaded
